@@ -4,6 +4,7 @@ import numpy as np
 from core import enc, q
 
 ID = "C01"
+HEAP_SUMMARY = True      # end every program with the reference-level observation (BB.Model.Heap vs id() walk)
 LEAN_MODULE = "BB.Properties.C01"
 QUICK_N = 300
 THOROUGH_N = 6000
